@@ -1,9 +1,9 @@
 """Per-property manifest entries.  A property listed in NOT_APPLICABLE and absent from CHECKS is not claimed."""
 CHECKS = {
     "C02": dict(
-        engine="HWVC", category="proof", technique="contract-based deductive verification: inductive invariants + postconditions on the real elaborated BankMachine (z3), ghost DRAM bank state",
-        text="Per-module contracts on the real BankMachine constructor output are discharged by induction over all inputs and schedules (unbounded time) for each listed configuration.",
-        note="Per configuration (enumerated list in evidence). Trusted: z3, Migen elaboration passes, FHDL->z3 translator (cross-checked against the Migen simulator each run).",
+        engine="HWVC", category="proof", technique="contract-based deductive verification: per-module contracts (BankMachine) and 2-induction on the real elaborated LiteDRAMController with ghost reference DRAM bank state driven by the DFI pins (z3)",
+        text="BankMachine contract (ghost bank state, inductive invariants, postconditions) proved per configuration; on the real LiteDRAMController (bank machines + multiplexer + steerer + refresher) the bank-machine contract's environment assumptions become proved obligations, linking invariants tie the registered DFI pins to the accepted commands, and the property's clauses (ACT only to a precharged bank, RD/WR only to the open request row, REF/ZQCS only with all banks precharged, read/write phase placement with data-enable strobes, chip selects) are postconditions on the DFI pins against an independent ghost DRAM bank state - all inputs, all schedules, unbounded time.",
+        note="Per configuration (list in evidence: phases 1/2/4, banks 2/4, ranks 1/2, AP on/off, ZQCS, buffered). refresh_postponing>1 not yet under contract (start-up phantom refresh sequence, see DESIGN). Trusted: z3, Migen lowering, FHDL->z3 translator (cross-checked each run).",
     ),
     "C15": dict(
         engine="HWVC", category="proof", technique="contract-based deductive verification: combinational validity of SECDED/granularity postconditions on the real elaborated ECC write/read paths for all data and all symbolic flip positions; induction for counters/flags (z3)",
